@@ -18,6 +18,7 @@ import hashlib
 import json
 import os
 import random
+import re
 import subprocess
 import sys
 import threading
@@ -71,6 +72,33 @@ def corpus(rng, n_each):
     for s in ['select * from nowhere', 'select * from int1.t1 join proj.pred as m join proj.pred2', 'select * from proj.pred',
               'select * from int1.t1 as t join proj.pred as m where t.zz.q = 1']:
         items.append(('plan', s, 'names'))
+    # calls that fail LATE (after planning part of the statement: common table expressions, sub-selects, earlier tables of a join), and
+    # calls whose names coincide with what such a call had got to know by then
+    late = ['with c1 as (select * from int1.t1) select * from c1 join nowhere.x on c1.a = x.a',
+            'with c1 as (select a from int1.t1), c2 as (select a from int2.t2) select * from c1 join c2 on c1.a = c2.a join nowhere.y on y.a = c1.a',
+            'with t1 as (select a from int2.t2) select * from t1 join nowhere.z on z.a = t1.a',
+            'select * from int1.t1 where a in (select a from int2.t2) and b in (select b from nowhere.q)',
+            'select * from int1.t1 join int2.t2 on t1.a = t2.a join nowhere.w on w.a = t1.a',
+            'select * from (select * from int1.t1) as s join nowhere.v on v.a = s.a',
+            # ... a column of a table that is not in the join is noticed only when the join is planned
+            'with c1 as (select * from int1.t1) select c1.a, zz.a from c1 join int2.t2 on c1.a = t2.a',
+            'with t1 as (select * from int1.u1), c2 as (select a from int2.t2) select t1.a, zz.b from t1 join int2.t2 as q on t1.a = q.a',
+            'select t1.a, zz.b from int1.t1 join int2.t2 on t1.a = t2.a where t1.b in (select b from int3.t3)',
+            'with c1 as (select * from int1.t1) select * from c1 join int2.t2 on c1.a = t2.a where zz.c = 1']
+    after = ['select * from c1', 'select * from c1 join int2.t2 on c1.a = t2.a', 'select * from c2 where a = 1', 'select * from t1',
+             'select * from t1 join int2.t2 on t1.a = t2.a', 'select * from s', 'with c1 as (select b from int2.t2) select * from c1']
+    for s in late + after:
+        for c in cats:
+            items.append(('plan', s, c))
+    for _ in range(n_each // 4):
+        g = plangen.gen_statement(rng, plangen.ALL_FEATURES)[0]
+        refs = list(re.finditer(r'\bint\d\.(\w+)', g))
+        if len(refs) >= 2:
+            m = refs[-1]
+            items.append(('plan', g[:m.start()] + 'nowhere.' + m.group(1) + g[m.end():], rng.choice(cats)))
+        cm = re.search(r'\b(\w+)\.([abc])\b', g)
+        if cm and len(refs) >= 2:
+            items.append(('plan', g[:cm.start()] + 'zz.' + cm.group(2) + g[cm.end():], rng.choice(cats)))
     for _ in range(n_each // 2):
         items.append(('render', c06.gen_statement(rng), rng.choice(['mysql', 'postgres', 'sqlite'])))
     for s in ['select cast(a as foo) from t', 'select count(a, b) from t', 'create table t (a serial)', 'select * from t1 right join t2 on t1.a=t2.a']:
